@@ -733,6 +733,9 @@ edn_value_t* edn_parse_text_block(edn_parser_t* parser) {
         }
     }
 
+    /* The first pass over-estimates (blank lines, escaped triple quotes); the string's
+     * length is what was actually written */
+    total_len = (size_t) (dst - result);
     *dst = '\0'; /* Null terminate the result string */
 
     /* Clean up: free all line structures */
